@@ -23,7 +23,7 @@ use std::time::Duration;
 use swimos::agent::agent_lifecycle::HandlerContext;
 use swimos::agent::agent_model::AgentModel;
 use swimos::agent::event_handler::{
-    BoxEventHandler, EventHandler, HandlerActionExt, Sequentially, UnitHandler,
+    join, BoxEventHandler, EventHandler, EventHandlerError, HandlerActionExt, Sequentially, UnitHandler,
 };
 use swimos::agent::lanes::{CommandLane, MapLane, ValueLane};
 use swimos::agent::{lifecycle, projections, AgentLaneModel};
@@ -237,6 +237,18 @@ impl Interp {
                 let hs: Vec<H> = ops.iter().map(|o| self.leaf(slot, o)).collect();
                 Sequentially::new(hs).boxed()
             }
+            "join" => {
+                let mut acc: Option<H> = None;
+                for o in ops.iter().rev() {
+                    let h = self.leaf(slot, o);
+                    acc = Some(match acc {
+                        None => h,
+                        Some(r) => join(h, r).map(|_: ((), ())| ()).boxed(),
+                    });
+                }
+                acc.unwrap()
+            }
+            "ctx" | "try" => self.then_x(style == "try", slot.to_string(), ops.clone(), 0),
             _ => {
                 // fbyR
                 let mut acc: Option<H> = None;
@@ -248,6 +260,24 @@ impl Interp {
                     });
                 }
                 acc.unwrap()
+            }
+        }
+    }
+
+    fn then_x(&self, fallible: bool, slot: String, ops: Arc<Vec<Leaf>>, i: usize) -> H {
+        let h = self.leaf(&slot, &ops[i]);
+        if i + 1 == ops.len() {
+            h
+        } else {
+            let me = self.clone();
+            if fallible {
+                h.and_then_try(move |_: ()| -> Result<H, EventHandlerError> {
+                    Ok(me.then_x(fallible, slot, ops, i + 1))
+                })
+                .boxed()
+            } else {
+                h.and_then_contextual(move |_agent: &HAgent, _: ()| me.then_x(fallible, slot, ops, i + 1))
+                    .boxed()
             }
         }
     }
